@@ -272,7 +272,7 @@ def run(plan, ctx):
     model = {}          # oid -> [content sha, dumps sha]
     graphs_of = {}      # program oid -> set of graph oids derived from it
     values_of = {}      # instance oid -> caller-owned arrays it was created from
-    call_memo = {}      # (content of callee, kwargs) -> (result digest, callee, step)
+    call_memo = {}      # (operation, content of operands, values) -> (result digest, operand, step)
     feats = {}
     instances_of = {}
     succeeded_call = set()
@@ -325,25 +325,35 @@ def run(plan, ctx):
                 ro_on_interesting = True
             if op == "digraph" and f.get("argless"):
                 bump("probe:digraph_on_argless_program")
-            if op == "call" and src in model:
-                # R4: what a template call returns depends only on the template's content
-                # and the values - equal programs answer equal calls equally, whatever
-                # read-only or failed operations either of them has been through
+            operands = [x for x in (st.get("obj"), st.get("t"), st.get("p")) if x]
+            if op in ("call", "digraph", "match", "dumps", "attrs", "iter", "deepcopy") and \
+                    operands and all(x in model for x in operands):
+                # R4: what a read-only operation returns depends only on the content of its
+                # operands (and the values passed) - equal programs answer equal operations
+                # equally, whatever read-only or failed operations either has been through
                 kw = {}
                 for k2, v2 in sorted(st.get("kwargs", {}).items()):
                     kw[k2] = ["ref", model.get(v2["ref"], ["?"])[0]] if isinstance(v2, dict) and "ref" in v2 else v2
-                key = model[src][0] + "|" + json.dumps(kw, sort_keys=True)
-                got = objs.get(st.get("out"), ["?"])[0] if ev.get("ok") else "exc:" + str(ev["res"][1])
+                key = op + "|" + "|".join(model[x][0] for x in operands) + "|" + json.dumps(kw, sort_keys=True)
+                if not ev.get("ok"):
+                    got = "exc:" + str(ev["res"][1])
+                elif st.get("out"):
+                    got = objs.get(st["out"], ["?"])[0]
+                else:
+                    got = D.sha(ev["res"])
+                if op == "deepcopy" and ev.get("ok") and got != model[st["obj"]][0]:
+                    viol.append({"inv": "R4", "step": i, "obj": src,
+                                 "detail": "deepcopy(%s) at step %d is not equal to the original" % (src, i)})
                 if key in call_memo and call_memo[key][0] != got:
                     viol.append({"inv": "R4", "step": i, "obj": src,
-                                 "detail": "%s at step %d gives %s, but the same call on an equal program (%s, "
+                                 "detail": "%s at step %d gives %s, but the same operation on an equal program (%s, "
                                            "step %d) gave %s" % (_describe(st), i,
-                                                                "an instance with different content" if ev.get("ok") else got,
+                                                                "a different result" if ev.get("ok") else got,
                                                                 call_memo[key][1], call_memo[key][2],
-                                                                "an instance" if not call_memo[key][0].startswith("exc:") else call_memo[key][0])})
-                    bump("probe:repeated_call_compared")
+                                                                "a result" if not call_memo[key][0].startswith("exc:") else call_memo[key][0])})
+                    bump("probe:repeated_%s_compared" % op)
                 elif key in call_memo:
-                    bump("probe:repeated_call_compared")
+                    bump("probe:repeated_%s_compared" % op)
                 else:
                     call_memo[key] = (got, src, i)
             if op == "call":
